@@ -25,7 +25,10 @@ type Job struct {
 	Scn    int    `json:"scn"`
 	Name   string `json:"name,omitempty"`
 	Prefix []int  `json:"prefix,omitempty"`
-	Split  bool   `json:"split,omitempty"`
+	// PrefixSig: hash of the enabled-set signatures met at the prefix's choice points by the execution
+	// the prefix was taken from (0: unknown); the worker replaying the prefix must meet the same.
+	PrefixSig uint64 `json:"psig,omitempty"`
+	Split     bool   `json:"split,omitempty"`
 	Arg    string `json:"arg,omitempty"`
 }
 
@@ -52,6 +55,7 @@ type Result struct {
 	Outcomes   map[string]int64 `json:"outcomes,omitempty"`
 	Violations []Viol           `json:"violations,omitempty"`
 	Children   [][]int          `json:"children,omitempty"`
+	ChildSigs  []uint64         `json:"child_sigs,omitempty"`
 	ChildKeys  []string         `json:"child_keys,omitempty"` // BFS: canonical state key per child, de-duplicated by the coordinator
 	Samples    []any            `json:"samples,omitempty"`
 	Capped     bool             `json:"capped,omitempty"`
@@ -764,7 +768,11 @@ func coordinate(c *Check, tier string, seed int) int {
 				}
 				seenKeys[r.ChildKeys[i]] = struct{}{}
 			}
-			q.push(Job{Scn: r.Job.Scn, Name: r.Job.Name, Prefix: ch})
+			nj := Job{Scn: r.Job.Scn, Name: r.Job.Name, Prefix: ch}
+			if len(r.ChildSigs) == len(r.Children) {
+				nj.PrefixSig = r.ChildSigs[i]
+			}
+			q.push(nj)
 		}
 	}
 	nw := runtime.NumCPU()
